@@ -244,6 +244,10 @@ class Gen(object):
                 if self.accept_variants and not op.get('defect') and \
                         self.chance(0.012):
                     self.unencodable_break(op)
+                if self.accept_variants and not op.get('defect') and \
+                        self.chance({'reshape': 0.05, 'inv_put_all': 0.01}
+                                    .get(op['kind'], 0)):
+                    self.nan_break(op)
                 if self.accept_variants and op.get('v') not in (
                         None, 'latest') and self.chance(0.03):
                     # the header may list versions for several services
@@ -298,6 +302,23 @@ class Gen(object):
                     op['h'] = {'content-type': ct}
                 return op
         return self.g_rp_create(m) or self.g_read(m)
+
+    def nan_break(self, op):
+        """allocation_ratio NaN in one inventory of the request."""
+        b = op['b']
+        if op['kind'] == 'inv_put_all':
+            if not b['inventories']:
+                return
+            tgt = b['inventories'][self.pick(sorted(b['inventories']))]
+        else:
+            rps = [u for u in sorted(b['inventories'])
+                   if b['inventories'][u]['inventories']]
+            if not rps:
+                return
+            invs = b['inventories'][self.pick(rps)]['inventories']
+            tgt = invs[self.pick(sorted(invs))]
+        tgt['allocation_ratio'] = float('nan')
+        op['defect'] = 'nan'
 
     def unencodable_break(self, op):
         """Text that is valid JSON and passes the schema but cannot be
@@ -365,6 +386,12 @@ class Gen(object):
                 tgt = invs[self.pick(sorted(invs))]
             else:
                 tgt = b
+            if k in ('reshape', 'inv_put_all') and r.random() < 0.3:
+                # the literal NaN: not standard JSON, but the parser takes
+                # it and no schema bound catches it
+                tgt['allocation_ratio'] = float('nan')
+                op['defect'] = 'nan'
+                return
             tgt['allocation_ratio'] = bad
             if bad == float('-inf') and r.random() < 0.5:
                 # 0 * -inf is NaN, and nothing is smaller than NaN
@@ -1297,7 +1324,7 @@ def op_brief(op):
     out = {'m': op['m'], 'p': op['p'], 'v': op.get('v')}
     if op.get('b') is not None:
         out['b'] = copy.deepcopy(op['b'])
-    if op.get('defect') in ('schema', 'unencodable'):
+    if op.get('defect') in ('schema', 'unencodable', 'nan'):
         out['defect'] = op['defect']
     if op.get('h'):
         out['h'] = dict(op['h'])
